@@ -5,6 +5,7 @@ package storage
 import (
 	"fmt"
 	"os"
+	"strings"
 	"testing"
 
 	"github.com/hydraide/hydraide/app/verifshim/vfs"
@@ -32,12 +33,24 @@ type C25Scenario struct {
 	Hist  C02Scenario   `json:"hist"`
 	Plans [][]FaultSpec `json:"plans"` // each plan = 1 or 2 faults
 	All   bool          `json:"all"`   // additionally: every single fault at every faultable operation
+	Long  bool          `json:"long,omitempty"`
 }
 
 func genC25(t *rapid.T) C25Scenario {
 	var s C25Scenario
 	s.Hist = genC02(t)
 	s.Hist.TornAll = false
+	if rapid.IntRange(0, 3).Draw(t, "long") == 0 {
+		// A long history over few keys with small payloads: the file collects >= 100 entries of which more
+		// than half are dead, so the chronicler's INLINE compaction (close writer, Compactor.Compact with
+		// its temp file, fsyncs and rename, reopen writer) runs in the middle of the session — the only
+		// place where the storage engine renames, and where a fault hits a writer that is re-created
+		// behind the caller's back.
+		lc := genCfg{maxKeyLen: 8, maxOps: 140, maxData: 40, structural: []string{"batch", "sync"}, minKeys: 1, maxKeys: 3}
+		s.Hist.Keys = genKeys(t, lc)
+		s.Hist.Ops = append(genOps(t, lc, len(s.Hist.Keys), 64), genOps(t, lc, len(s.Hist.Keys), 64)...)
+		s.Long = true
+	}
 	np := rapid.IntRange(2, 5).Draw(t, "nplans")
 	for i := 0; i < np; i++ {
 		nf := 1
@@ -92,7 +105,11 @@ func driveChronFaulted(dir string, s C02Scenario, faults map[int]vfs.Fault) *c25
 			keyStr[i] = "e"
 		}
 	}
+	// what the swamp would report as its number of live records (drives the inline compaction decision)
+	liveKeys := map[string]bool{}
+	liveCount := func() int { return len(liveKeys) }
 	c := newChron(dir, s.Cfg)
+	c.RegisterLiveCountFunction(liveCount)
 	ver := 0
 	mk := func(o Op) entryStep {
 		ver++
@@ -106,6 +123,13 @@ func driveChronFaulted(dir string, s C02Scenario, faults map[int]vfs.Fault) *c25
 	write := func(es []entryStep) {
 		seq++
 		st := vfs.Len()
+		for _, e := range es {
+			if e.del {
+				delete(liveKeys, e.key)
+			} else {
+				liveKeys[e.key] = true
+			}
+		}
 		c.Write(toTreasures(es))
 		en := vfs.Len()
 		for _, e := range es {
@@ -136,6 +160,7 @@ func driveChronFaulted(dir string, s C02Scenario, faults map[int]vfs.Fault) *c25
 				mark()
 			}
 			_, c = loadAll(dir, s.Cfg)
+			c.RegisterLiveCountFunction(liveCount)
 		}
 	}
 	if err := c.Close(); err == nil {
@@ -181,6 +206,32 @@ func runC25(s C25Scenario) pbt.Outcome {
 			pl[i] = flt
 		}
 		plans = append(plans, pl)
+	}
+	// The inline compaction of a long history is a handful of operations among hundreds: aim single
+	// (and, for rename/sync, persistent) faults at every faultable operation from the creation of the
+	// temp file to a few operations past the rename (the writer is re-created there).
+	for i, o := range d.ops {
+		if o.Kind != "rename" {
+			continue
+		}
+		lo := i
+		for lo > 0 && !(d.ops[lo].Kind == "create" && strings.HasSuffix(d.ops[lo].Path, ".compact")) && i-lo < 40 {
+			lo--
+		}
+		lo -= 8 // the writer is flushed, its header rewritten and fsynced right before the temp file is created
+		if lo < 0 {
+			lo = 0
+		}
+		for j := lo; j <= i+4 && j < len(d.ops); j++ {
+			if !faultable(d.ops[j]) {
+				continue
+			}
+			plans = append(plans, plan{j: vfs.Fault{}})
+			if d.ops[j].Kind == "rename" || d.ops[j].Kind == "sync" {
+				plans = append(plans, plan{j: vfs.Fault{Sticky: 2}})
+			}
+		}
+		break // the first compaction of the history is enough
 	}
 	if s.All {
 		for _, i := range fidx {
